@@ -23,10 +23,16 @@ var (
 
 // c17LoadFaultCheck returns "" or the description of what is wrong.
 func c17LoadFaultCheck(src string) (class, msg string, rejected bool) {
-	_, errs := drv.Load(map[string]string{"s.p": src})
+	// a second script with byte-identical text in the same load: each is reported under its own name
+	_, errs := drv.Load(map[string]string{"s.p": src, "dir/twin.p": src})
 	e, bad := errs["s.p"]
 	if !bad {
 		return "", "", false
+	}
+	if te, tbad := errs["dir/twin.p"]; !tbad {
+		return "twin-accepted", "the same text is rejected as s.p and accepted as dir/twin.p", true
+	} else if tpe, ok := te.(*errchain.PlError); ok && tpe != nil && len(tpe.PosChain) > 0 && tpe.PosChain[0].File != "dir/twin.p" {
+		return "wrong-file", fmt.Sprintf("the error of dir/twin.p names %q: %v", tpe.PosChain[0].File, te), true
 	}
 	if lp, isPanic := e.(*drv.LoadPanic); isPanic {
 		return "panic", lp.Msg, true
